@@ -172,7 +172,7 @@ func (p *Packer) Pack(src string, w io.Writer) (*Meta, error) {
 	}
 
 	// Walk the tree of files.
-	err = filepath.Walk(src, p.packWalkFn(src, src, src, tarW, meta, ignoreRules))
+	err = filepath.Walk(src, p.packWalkFn(src, src, src, tarW, meta, ignoreRules, []string{src}))
 	if err != nil {
 		return nil, err
 	}
@@ -190,7 +190,7 @@ func (p *Packer) Pack(src string, w io.Writer) (*Meta, error) {
 	return meta, nil
 }
 
-func (p *Packer) packWalkFn(root, src, dst string, tarW *tar.Writer, meta *Meta, ignoreRules *ignorefiles.Ruleset) filepath.WalkFunc {
+func (p *Packer) packWalkFn(root, src, dst string, tarW *tar.Writer, meta *Meta, ignoreRules *ignorefiles.Ruleset, derefChain []string) filepath.WalkFunc {
 	return func(path string, info os.FileInfo, err error) error {
 		if err != nil {
 			return err
@@ -286,7 +286,15 @@ func (p *Packer) packWalkFn(root, src, dst string, tarW *tar.Writer, meta *Meta,
 			// If the target is a directory we can recurse into the target
 			// directory by calling the packWalkFn with updated arguments.
 			if resolved.info.IsDir() {
-				return filepath.Walk(resolved.absTarget, p.packWalkFn(root, resolved.absTarget, path, tarW, meta, ignoreRules))
+				// A directory that is already being walked must not be entered
+				// again, or the walk would never end.
+				for _, seen := range derefChain {
+					if seen == resolved.absTarget {
+						return fmt.Errorf("symlink %q leads back into directory %q which is being archived", path, seen)
+					}
+				}
+				chain := append(append([]string{}, derefChain...), resolved.absTarget)
+				return filepath.Walk(resolved.absTarget, p.packWalkFn(root, resolved.absTarget, path, tarW, meta, ignoreRules, chain))
 			}
 
 			// Only regular files can be copied into the archive. Anything else
